@@ -111,3 +111,6 @@ func (c *FailoverController) DeadlinesForVerif() (failover, failback time.Time) 
 	defer c.mu.RUnlock()
 	return c.failoverTime, c.failbackTime
 }
+
+// EvaluateStateForVerif runs one iteration of the control loop's periodic evaluation.
+func (c *FailoverController) EvaluateStateForVerif() { c.evaluateState() }
